@@ -17,25 +17,13 @@
    bound is false (C06_zero_width_items_refuted). *)
 From Coq Require Import List ZArith Lia Bool ZifyBool ZifyNat.
 Require Import Avro.Model.Base Avro.Model.Prim Avro.Model.Schema Avro.Model.GoType
-               Avro.Model.Blocks Avro.Model.Time Avro.Model.Spec Avro.Model.Codec.
+               Avro.Model.Blocks Avro.Model.Time Avro.Model.Spec Avro.Model.Codec Avro.Model.Heap.
 Require Import Avro.Proofs.ListFacts Avro.Proofs.VarintP Avro.Proofs.VarintMore Avro.Proofs.PrimP
                Avro.Proofs.BlocksP Avro.Proofs.CodecInd Avro.Proofs.CodecEq Avro.Proofs.SafeP Avro.Proofs.ReadSafeP.
 Import ListNotations.
 Open Scope Z_scope.
 
 (* ---- heap cells of a value ---- *)
-Fixpoint cells (v : gval) {struct v} : Z :=
-  match v with
-  | VStr s => len s
-  | VBytes s => len s
-  | VSlice vs => (fix go (l : list gval) {struct l} : Z := match l with [] => 0 | x :: r => 1 + cells x + go r end) vs
-  | VMap kvs => (fix go (l : list (bytes * gval)) {struct l} : Z :=
-                   match l with [] => 0 | (k, x) :: r => 1 + len k + cells x + go r end) kvs
-  | VPtr (Some x) => 1 + cells x
-  | VStruct vs => (fix go (l : list gval) {struct l} : Z := match l with [] => 0 | x :: r => cells x + go r end) vs
-  | VNullW _ p => cells p
-  | _ => 0
-  end.
 
 Fixpoint cells_items (l : list gval) {struct l} : Z := match l with [] => 0 | x :: r => 1 + cells x + cells_items r end.
 Fixpoint cells_kvs (l : list (bytes * gval)) {struct l} : Z :=
@@ -84,27 +72,7 @@ Lemma cells_cx k v : cells (cx k v) = cells v.
 Proof. destruct v; cbn [cx cells]; try reflexivity. unfold len. rewrite rev_length. reflexivity. Qed.
 
 (* ---- the two constants of a codec tree ---- *)
-Fixpoint st (c : codec) {struct c} : Z :=
-  match c with
-  | CRecord fs => (fix go (l : list (codec * option nat)) {struct l} : Z :=
-                     match l with [] => 0 | (fc, _) :: l' => st fc + go l' end) fs
-  | CPtr c' z => 1 + cells z + st c'
-  | CUnion cs => (fix go (l : list codec) {struct l} : Z := match l with [] => 0 | x :: l' => st x + go l' end) cs
-  | CUnionOne c' _ | CCustom _ c' => st c'
-  | _ => 0
-  end.
 
-Fixpoint rate (c : codec) {struct c} : Z :=
-  match c with
-  | CBytes _ | CString _ | CUnionStr _ _ | CNullString => 1
-  | CRecord fs => (fix go (l : list (codec * option nat)) {struct l} : Z :=
-                     match l with [] => 0 | (fc, _) :: l' => Z.max (rate fc) (go l') end) fs
-  | CArray ic iz _ => 1 + cells iz + st ic + rate ic
-  | CMap vc vz _ => 1 + cells vz + st vc + Z.max 1 (rate vc)
-  | CPtr c' _ | CUnionOne c' _ | CCustom _ c' => rate c'
-  | CUnion cs => (fix go (l : list codec) {struct l} : Z := match l with [] => 0 | x :: l' => Z.max (rate x) (go l') end) cs
-  | _ => 0
-  end.
 
 Fixpoint st_fields (l : list (codec * option nat)) {struct l} : Z :=
   match l with [] => 0 | (fc, _) :: l' => st fc + st_fields l' end.
@@ -309,4 +277,29 @@ Corollary read_cells_fresh fuel c dest bs v r : nzw c -> cells dest = 0 -> c_rea
 Proof.
   intros Hz Hd Hs. pose proof (read_cells fuel c dest bs v r Hz Hs). pose proof (rate_nonneg c).
   assert (0 <= len r) by (unfold len; lia). nia.
+Qed.
+
+(* the boolean guard of the correspondence check is the theorem's premise *)
+Lemma minb_min c : minb c = min_bytes c.
+Proof. reflexivity. Qed.
+
+Lemma nzwb_nzw c : nzwb c = true -> nzw c.
+Proof.
+  induction c using codec_ind'; intros Hb; try exact I; cbn [nzwb nzw] in *.
+  - induction H as [|[fc t] l Hx _ IH]; [exact I|]. cbn [fst] in Hx.
+    apply andb_true_iff in Hb. destruct Hb as [H1 H2]. split; [apply Hx; exact H1|apply IH; exact H2].
+  - apply andb_true_iff in Hb. destruct Hb as [H1 H2]. split; [apply IHc; exact H1|]. rewrite <- minb_min. lia.
+  - apply IHc; exact Hb.
+  - apply IHc; exact Hb.
+  - induction H as [|x l Hx _ IH]; [exact I|].
+    apply andb_true_iff in Hb. destruct Hb as [H1 H2]. split; [apply Hx; exact H1|apply IH; exact H2].
+  - apply IHc; exact Hb.
+  - apply IHc; exact Hb.
+Qed.
+
+Theorem heap_bound_holds fuel c dest bs v r :
+  c_read fuel c dest bs = Done v r -> heap_bound_ok c dest (len bs - len r) v = true.
+Proof.
+  intros Hs. unfold heap_bound_ok. destruct (nzwb c) eqn:E; [|reflexivity]. cbn [negb orb].
+  pose proof (read_cells fuel c dest bs v r (nzwb_nzw c E) Hs). lia.
 Qed.
